@@ -131,7 +131,21 @@ func (vc *FnVC) safety(detail, goal string) {
 	if vc.fc != nil && vc.fc.NoSafety {
 		return
 	}
-	vc.oblige("safety", detail, goal, vc.fnTags(), "")
+	vc.oblige("safety", detail, goal, vc.safetyTags(), "")
+}
+
+// safetyTags: the properties the function's safety obligations belong to (option
+// "safety-tags"; default: the function's tags).
+func (vc *FnVC) safetyTags() []string {
+	if vc.fc != nil {
+		if t, ok := vc.fc.Options["safety-tags"]; ok {
+			if t == "none" {
+				return []string{"-"}
+			}
+			return strings.Fields(t)
+		}
+	}
+	return vc.fnTags()
 }
 
 func describeValue(v ssa.Value) string {
@@ -885,7 +899,46 @@ func (vc *FnVC) implementsPred(v string, it types.Type) string {
 	return "(" + fn + " (if-tag " + v + "))"
 }
 
+// lockObligation: an access to a map held in a package variable declared `guarded ... by mutex`
+// must happen with the mutex held (write lock for updates).
+func (vc *FnVC) lockObligation(mapVal ssa.Value, write bool, st *State) {
+	g := globalRoot(mapVal)
+	if g == nil || g.Pkg == nil {
+		return
+	}
+	gd, ok := vc.prog.cs.Guards[g.Pkg.Pkg.Path()+"::"+g.Name()]
+	if !ok {
+		return
+	}
+	mg, ok := g.Pkg.Members[gd.Mutex].(*ssa.Global)
+	if !ok {
+		panic(unsupported("guarded: no such mutex " + gd.Mutex))
+	}
+	mcomp, msort := vc.globalComp(mg)
+	maddr := vc.lvalPtr(&Lval{comp: mcomp, sort: msort, ref: ""})
+	env := vc.newEnv(st, vc.entry)
+	wl := sel(vc.cur(st, vc.ghostCompByName(env, "wlocked")), maddr)
+	rl := sel(vc.cur(st, vc.ghostCompByName(env, "rlocked")), maddr)
+	goal := wl
+	kind := "write"
+	if !write {
+		goal = or(wl, "(> "+rl+" 0)")
+		kind = "read"
+	}
+	vc.oblige("lock", g.Name()+"/"+kind, goal, vc.fnTags(), "access to "+g.Name()+" requires "+gd.Mutex)
+}
+
+func (vc *FnVC) ghostCompByName(env *Env, name string) string {
+	g, ok := vc.prog.cs.Ghosts[name]
+	if !ok {
+		panic(unsupported("ghost variable " + name + " is not declared (sync.spec)"))
+	}
+	c, _, _ := env.ghostComp(g)
+	return c
+}
+
 func (vc *FnVC) doMapUpdate(x *ssa.MapUpdate, st *State) {
+	vc.lockObligation(x.Map, true, st)
 	m := vc.term(x.Map).S
 	mt := x.Map.Type().Underlying().(*types.Map)
 	mh, mv, _, _ := vc.mapComps(mt)
@@ -926,6 +979,7 @@ func (vc *FnVC) mapGet(st *State, mt *types.Map, m, k string) string {
 func (vc *FnVC) doLookup(x *ssa.Lookup, st *State) {
 	switch u := x.X.Type().Underlying().(type) {
 	case *types.Map:
+		vc.lockObligation(x.X, false, st)
 		m, k := vc.term(x.X).S, vc.term(x.Index).S
 		has := vc.mapHas(st, u, m, k)
 		get := vc.mapGet(st, u, m, k)
@@ -1040,6 +1094,7 @@ func (vc *FnVC) doRange(x *ssa.Range, st *State) {
 	if !ok {
 		panic(unsupported("range over string"))
 	}
+	vc.lockObligation(x.X, false, st)
 	ks := vc.enc.sortOf(mt.Key())
 	c := vc.seenCompFor(x)
 	vc.setComp(st, c, "((as const "+arraySort(ks, sBool)+") false)")
